@@ -19,7 +19,8 @@ EXTENDS ValidatorOps, TLC
 CONSTANTS S,        \* slices per picture in the tiny format (slices_x = S, slices_y = 1)
           MaxLen,   \* bound on the number of data units in a history
           Cfgs      \* configurations carried by the first sequence header:
-                    \*   [prof : {"LD","HQ"}, ver : 1..3, pat : {"any","nomix","altld","althq"}, fields : BOOLEAN]
+                    \*   [prof : {"LD","HQ"}, ver : 1..3, pat : {"any","nomix","altld","althq"}, fields : BOOLEAN, sx : {1, S}]
+                    \*   sx = slices_x (slices_y = S / sx): S x 1 slices in one row, or 1 x S slices in one column
 
 NONE == -1
 Profs == {"LD", "HQ"}
@@ -33,7 +34,7 @@ Ppo == {"ok", "bad"}                             \* true distance (0 for the fir
 Units ==
        [k : {"SH"}, same : BOOLEAN, npo : NpoAny, ppo : Ppo]
   \cup [k : {"PIC", "F0"}, prof : Profs, pn : PNChoices, npo : NpoPic, ppo : Ppo]
-  \cup [k : {"FN"}, prof : Profs, cnt : 1..S, off : {"ok", "bad"}, pnsame : BOOLEAN, npo : NpoPic, ppo : Ppo]
+  \cup [k : {"FN"}, prof : Profs, cnt : 1..S, off : {"ok", "bad", "alias"}, pnsame : BOOLEAN, npo : NpoPic, ppo : Ppo]
   \cup [k : {"PAD", "AUX"}, npo : {"ok", "zero", "inside"}, ppo : Ppo]      \* npo defines the payload length
   \cup [k : {"EOS"}, npo : {"zero", "ok", "inside"}, ppo : Ppo]            \* "ok" = 13 (non-zero)
   \cup [k : {"BADPFX", "BADCODE"}, npo : {"ok"}, ppo : {"ok"}]
@@ -60,6 +61,10 @@ PNValue(x, p) == CASE p = "a0" -> 0 [] p = "a1" -> 1 [] p = "am2" -> 2 [] p = "a
 PNConsecutive(p) == p = "next"
 Parity(x) == x % 2
 
+\* fragment_x/y_offset variants: "ok" = (recv mod sx, recv div sx); "bad" = x + 1; "alias" = (recv, 0), which is
+\* the same slice INDEX written with out-of-range coordinates once recv has reached the second row
+OffWrong(off, recv, sx) == off = "bad" \/ (off = "alias" /\ recv >= sx)
+
 (* --- the rules: names of the rules unit u violates in the current state ----------------- *)
 Viol(u) ==
   LET c == cfg IN
@@ -84,7 +89,7 @@ Viol(u) ==
   \cup (IF started /\ u.k = "FN" /\ fragRem = 0 THEN {"R7_no_fragmented_picture_in_progress"} ELSE {})
   \cup (IF started /\ u.k = "FN" /\ fragRem # 0 /\ ~u.pnsame THEN {"R7_number_changed"} ELSE {})
   \cup (IF started /\ u.k = "FN" /\ fragRem # 0 /\ u.cnt > fragRem THEN {"R7_too_many_slices"} ELSE {})
-  \cup (IF started /\ u.k = "FN" /\ fragRem # 0 /\ u.off = "bad" THEN {"R7_contiguous"} ELSE {})
+  \cup (IF started /\ u.k = "FN" /\ fragRem # 0 /\ OffWrong(u.off, fragRecv, c.sx) THEN {"R7_contiguous"} ELSE {})
   \cup (IF started /\ u.k = "EOS" /\ fragRem # 0 THEN {"R7_incomplete_at_end"} ELSE {})
   \cup (IF started /\ u.k = "EOS" /\ c.fields /\ np = 1 THEN {"R6_whole_frames"} ELSE {})
   \cup (IF started /\ u.k = "EOS" /\ ~LvlAccepting(c.pat, LvlStep(c.pat, lvl, "eos")) THEN {"R8_level_pattern"} ELSE {})
@@ -207,7 +212,7 @@ PosOK(c, h, i) ==
   /\ (u.k \in {"PIC", "F0"} /\ c.fields /\ PicsBefore(h, i) % 2 = 0
          => (FirstParity(h) + PicsBefore(h, i)) % 2 = 0)                              \* even first field
   /\ (u.k \in {"PIC", "F0"} => Open(h, i) = 0)                     \* no interleaving / restart
-  /\ (u.k = "FN" => Open(h, i) # 0 /\ u.pnsame /\ u.cnt <= Open(h, i) /\ u.off = "ok")
+  /\ (u.k = "FN" => Open(h, i) # 0 /\ u.pnsame /\ u.cnt <= Open(h, i) /\ ~OffWrong(u.off, S - Open(h, i), c.sx))
 
 PrefixOK(c, h) == /\ \A i \in 1..Len(h) : PosOK(c, h, i)
                   /\ (Len(h) > 0 => c.ver >= BaseVer(c))            \* the profile needs this version
